@@ -75,16 +75,7 @@ def _mb_any(V):
         V.ensure("post[any-file]/eof-inside-the-file", to_z3(h.fields["_eof"], "int") <= blen(F))
 
 
-def file_with_header(V, cell):
-    """F starts with a valid file header (H1, H2, B0); returns (H1p, H2, B0, bof)"""
-    st = V.st
-    F = bz(cell.fields["content"])
-    H1, H2, B0 = st.fresh("H1", BytesS), st.fresh("H2", BytesS), st.fresh("B0", BytesS)
-    V.assume(z3.And(blen(H2) < 65536, blen(B0) < 2 ** 32, blen(F) >= 32 + blen(H2) + blen(B0)))
-    V.assume(bslice(F, 0, 32) == pack_FH(H1, blen(H2), blen(B0)))
-    V.assume(bslice(F, 32, blen(H2)) == H2)
-    V.assume(bslice(F, 32 + blen(H2), blen(B0)) == B0)
-    return H1, H2, B0, 32 + blen(H2) + blen(B0)
+file_with_header = U.file_with_header
 
 
 @P.unit(f"{UKV}.open", name="open[recover]", functions=[f"{UKV}.open", f"{UKV}.read_header", f"{UKV}._unpack_read", f"{UKV}._bof"])
